@@ -681,6 +681,7 @@ func main() {
 		{strings.TrimSuffix(*trDst, ".lean") + "Cli.lean", translateCli(loadUi(*repo))},
 		{strings.TrimSuffix(*trDst, ".lean") + "Misc.lean", st.translateMisc()},
 		{strings.TrimSuffix(*trDst, ".lean") + "Aug.lean", st.translateAug()},
+		{strings.TrimSuffix(*trDst, ".lean") + "Reader.lean", st.translateReader()},
 	} {
 		if old, err := os.ReadFile(g.path); err != nil || !bytes.Equal(old, []byte(g.text)) {
 			if err := os.WriteFile(g.path, []byte(g.text), 0o644); err != nil {
